@@ -1,20 +1,28 @@
-"""C15: turn (table row, role, flag vector) into one concrete HTTP request against the
-real application, execute it, and report what can be observed.
+"""C15: turn (table row, credential/flag vector, parameter overlay) into one concrete HTTP request
+against the real application, execute it, and report what can be observed.
 
-flag vector (same seven Booleans as `DashLive.Auth.Request`):
-  sendsSession sendsJwt ajax targetExists targetIsSelf csrfPresent csrfOk
-Flags a row's guard chain never looks at are normalised to a fixed value, and flags
-the builder cannot honour (a JSON body is always `is_ajax()`) are forced, so that the
-vector handed to the Lean model describes exactly the request that was sent.
+vector (the components of `DashLive.Auth.Request`):
+  session       none | user | media | admin      whose session cookie is presented
+  token         none | guest | user | media | admin   whose bearer token is presented (guest = the
+                access token GET /api/refresh/access issues to every visitor); independent of `session`
+  refresh       the presented token is that account's refresh token (else its access token)
+  ajax targetExists csrfPresent csrfOk            Booleans
+  target        victim | guest | user | media | admin   the user row named in the URL (api-edit-user)
+Components a row cannot realise are normalised (no loader -> the target exists; a JSON body is always
+`is_ajax()` …), so that the vector handed to the Lean model describes exactly the request that was sent.
+The *actor* of a vector – whose CSRF cookie/tokens, own-account fields and login body are used – is the
+session's account, else the token owner's, else the anonymous visitor.
 """
 from __future__ import annotations
 
 import io
 import urllib.parse
 
-import flask
-
-FLAG_NAMES = ["sendsSession", "sendsJwt", "ajax", "targetExists", "targetIsSelf", "csrfPresent", "csrfOk"]
+ROLES = ["user", "media", "admin"]
+SESSIONS = ["none"] + ROLES
+TOKENS = ["none", "guest"] + ROLES
+TARGETS = ["victim", "guest"] + ROLES
+BOOL_FLAGS = ["ajax", "targetExists", "csrfPresent", "csrfOk"]
 
 USERNAMES = {}
 
@@ -53,16 +61,61 @@ def guard_token(g: dict) -> str:
     return "other"
 
 
-def model_line(row: dict, role: str, flags: dict) -> str:
+def vec(session="none", token="none", refresh=False, ajax=False, targetExists=True, target="victim",
+        csrfPresent=True, csrfOk=True) -> dict:
+    return {"session": session, "token": token, "refresh": refresh, "ajax": ajax,
+            "targetExists": targetExists, "target": target, "csrfPresent": csrfPresent, "csrfOk": csrfOk}
+
+
+def veckey(v: dict) -> str:
+    fl = "".join("1" if v[n] else "0" for n in BOOL_FLAGS)
+    return f"{v['session']}/{v['token']}{':refresh' if v['refresh'] else ''}/{v['target']}/{fl}"
+
+
+def vec_from_key(k: str) -> dict:
+    s, t, e, fl = k.split("/")
+    refresh = t.endswith(":refresh")
+    t = t.split(":")[0]
+    v = vec(session=s, token=t, refresh=refresh, target=e)
+    for n, c in zip(BOOL_FLAGS, fl):
+        v[n] = c == "1"
+    return v
+
+
+def actor(v: dict) -> str:
+    if v["session"] != "none":
+        return v["session"]
+    if v["token"] in ROLES:
+        return v["token"]
+    return "anonymous"
+
+
+def held(v: dict) -> set:
+    """the accounts the caller has proved to hold (the guest account is nobody's)"""
+    return {x for x in (v["session"], v["token"]) if x in ROLES}
+
+
+def model_line(row: dict, v: dict) -> str:
     gs = ",".join(guard_token(g) for g in chain(row)) or "-"
-    fl = "".join("1" if flags[n] else "0" for n in FLAG_NAMES)
-    return f"authz {role} {row['kind']} {fl} {gs}"
+    fl = "".join("1" if v[n] else "0" for n in BOOL_FLAGS)
+    session = "nobody" if v["session"] == "none" else v["session"]
+    token = v["token"] + (":refresh" if v["refresh"] and v["token"] != "none" else "")
+    target = "nobody" if v["target"] == "victim" else v["target"]
+    return f"authz {row['kind']} {session} {token} {target} {fl} {gs}"
 
 
 # ---------------------------------------------------------------------------
 # URL parameters
 
-def url_values(w, row: dict, role: str, exists: bool, is_self: bool) -> dict:
+def target_pk(w, target: str) -> int:
+    if target == "victim":
+        return w.ids["victim"]
+    if target == "guest":
+        return w.ids["guest"]
+    return w.ids["users"][target]
+
+
+def url_values(w, row: dict, exists: bool, target: str) -> dict:
     ids = w.ids
     route = row["route"]
     v = {
@@ -76,10 +129,7 @@ def url_values(w, row: dict, role: str, exists: bool, is_self: bool) -> dict:
     if route in ("video", "video-mps", "mpd-patch"):
         v["manifest"] = "hand_made"
     if route == "api-edit-user":
-        if is_self:
-            v["upk"] = w.sessions[role].pk
-        else:
-            v["upk"] = ids["victim"]
+        v["upk"] = target_pk(w, target)
     if route.startswith("mps-") or route == "video-mps":
         v["filename"] = ids["bbb_video"]
     if not exists:
@@ -224,22 +274,30 @@ def overlay_fields(w, row: dict, role: str, name: str, values: dict) -> tuple[di
     raise ValueError(name)
 
 
-def needs_refresh(row: dict) -> bool:
-    return any(g["g"] == "jwt" and g["refresh"] for g in chain(row))
+def token_value(w, v: dict) -> str | None:
+    if v["token"] == "none":
+        return None
+    if v["token"] == "guest":
+        return None if v["refresh"] else w.sessions["anonymous"].access
+    s = w.sessions[v["token"]]
+    return s.refresh if v["refresh"] else s.access
 
 
-def normalise(w, row: dict, role: str, flags: dict) -> dict | None:
-    """the flag vector that the concrete request will really realise; None if the role
-    cannot legitimately build such a request (e.g. a valid token for a service that
-    no page hands to this role)"""
-    f = dict(flags)
+def normalise(w, row: dict, v: dict) -> dict | None:
+    """the vector that the concrete request will really realise; None if it cannot be built
+    legitimately (a valid token for a service that no page hands to the actor; a guest refresh token)"""
+    f = dict(v)
     ch = chain(row)
     kinds = {g["g"] for g in ch}
-    s = w.sessions[role]
+    if f["token"] == "none":
+        f["refresh"] = False
+    if f["token"] == "guest" and f["refresh"]:
+        return None
+    s = w.sessions[actor(f)]
     if "loader" not in kinds:
         f["targetExists"] = True
     if row["route"] != "api-edit-user":
-        f["targetIsSelf"] = False
+        f["target"] = "victim"
     svc = csrf_service(row)
     if svc is None:
         f["csrfPresent"] = False
@@ -249,18 +307,9 @@ def normalise(w, row: dict, role: str, flags: dict) -> dict | None:
             f["csrfOk"] = False
         elif f["csrfOk"] and svc not in s.csrf:
             return None
-    if not ({"jwt", "jwtlogin", "selforadmin"} & kinds):
-        f["sendsJwt"] = False
-    if not ({"login"} & kinds) and not any(g["g"] == "selforadmin" and g["who"] != "jwt" for g in ch):
-        # no guard consults the session: present every credential the role owns
-        f["sendsSession"] = True
-    if role == "anonymous":
-        f["sendsSession"] = False
-    kind, _, _ = body_for(w, row, role, {"upk": 0})
+    kind, _, _ = body_for(w, row, actor(f), {"upk": 0})
     if kind == "json":
         f["ajax"] = True
-    if f["sendsJwt"] and needs_refresh(row) and role != "anonymous" and not s.refresh:
-        return None
     return f
 
 
@@ -273,11 +322,12 @@ def tamper(tok: str) -> str:
     return urllib.parse.quote(raw[:i] + ch + raw[i + 1:])
 
 
-def execute(w, row: dict, role: str, flags: dict, overlay: str = "minimal") -> dict:
+def execute(w, row: dict, v: dict, overlay: str = "minimal") -> dict:
     """restore the snapshot, send the request, observe"""
     w.restore()
+    role = actor(v)
     s = w.sessions[role]
-    values = url_values(w, row, role, flags["targetExists"], flags["targetIsSelf"])
+    values = url_values(w, row, v["targetExists"], v["target"])
     kind, payload, query = body_for(w, row, role, values)
     query = dict(query)
     extra, base_wins = overlay_fields(w, row, role, overlay, values)
@@ -291,6 +341,7 @@ def execute(w, row: dict, role: str, flags: dict, overlay: str = "minimal") -> d
         query = {**q_extra, **query} if base_wins else {**query, **q_extra}
     svc = csrf_service(row)
     token = None
+    flags = v
     if svc is not None and flags["csrfPresent"]:
         if flags["csrfOk"]:
             token = s.csrf[svc]
@@ -313,10 +364,14 @@ def execute(w, row: dict, role: str, flags: dict, overlay: str = "minimal") -> d
         rule_args = next(r for r in w.app.url_map.iter_rules() if r.endpoint == row["route"]).arguments
         path = adapter.build(row["route"], {k: args[k] for k in rule_args}, method=None)
     headers = {}
-    if flags["sendsJwt"]:
-        tok = s.refresh if (needs_refresh(row) and s.refresh) else s.access
+    tok = token_value(w, v)
+    if tok:
         headers["Authorization"] = f"Bearer {tok}"
-    client = w.client(role, flags["sendsSession"])
+    client = w.app.test_client()
+    if v["session"] != "none":
+        client.set_cookie("session", w.sessions[v["session"]].session_cookie, domain="localhost")
+    if s.csrf_cookie:
+        client.set_cookie("csrf", s.csrf_cookie, domain="localhost")
     code = w.body_code(row["route"], row["method"])
     w.hits.clear()
     kw = {"method": row["method"], "query_string": query, "headers": headers}
@@ -332,7 +387,29 @@ def execute(w, row: dict, role: str, flags: dict, overlay: str = "minimal") -> d
     changed = w.changes()
     changed_users = w.changed_users() if "User" in changed else []
     desc = {"method": row["method"], "path": path, "query": {k: (v if k != "csrf_token" else "<token>") for k, v in query.items()},
-            "body_kind": kind, "jwt": bool(headers), "session": flags["sendsSession"]}
+            "body_kind": kind, "session_cookie_of": v["session"],
+            "bearer_token_of": v["token"] + (" (refresh token)" if v["refresh"] and v["token"] != "none" else ""),
+            "csrf_cookie_and_tokens_of": role}
+    # the request sequence that reproduces the case from scratch
+    seq = []
+    if v["session"] != "none":
+        seq.append(f"POST /api/login as '{v['session']}' -> session cookie"
+                   + (", access and refresh token" if v["token"] == v["session"] else ""))
+    if v["token"] == "guest":
+        seq.append("GET /api/refresh/access without a refresh token -> access token of the guest account")
+    elif v["token"] != "none" and v["token"] != v["session"]:
+        seq.append(f"POST /api/login as '{v['token']}' -> its {'refresh' if v['refresh'] else 'access'} token")
+    if token is not None:
+        seq.append(f"GET /streams?ajax=1 as '{role}' -> csrf cookie and tokens"
+                   + ("" if flags["csrfOk"] else " (token then modified / of another service)"))
+    seq.append(f"{row['method']} {path} with " + ", ".join(
+        [f"the session cookie of '{v['session']}'" if v["session"] != "none" else "no session cookie",
+         (f"Authorization: Bearer <{'refresh' if v['refresh'] else 'access'} token of '{v['token']}'>"
+          if v["token"] != "none" else "no bearer token")]) + (f", {kind} body" if kind != "none" else ""))
+    desc["sequence"] = seq
+    if kind in ("form", "json") and payload:
+        desc["body"] = {k: (val if k != "csrf_token" else "<token>") for k, val in payload.items()
+                        if isinstance(val, (str, int, bool, type(None), list))}
     desc["overlay"] = overlay
     if extra:
         desc["overlay_fields"] = {k: extra[k] for k in sorted(extra)}
